@@ -8,9 +8,9 @@ PROP = "C18"
 def plans(tier):
     s = vlib.seed()
     if tier == "quick":
-        return [dict(gens="collapse,hole,star", variants="base", n=1500, W=6, nmax=12, bias=0.6, seed=s),
+        return [dict(gens="collapse,hole,star,rect", variants="base", n=1800, W=6, nmax=12, bias=0.6, seed=s),
                 dict(gens="collapse", variants="base", n=700, W=8, nmax=12, bias=0.6, seed=s + 1)]
-    return [dict(gens="collapse,hole,star", variants="base", n=40000, W=6, nmax=14, bias=0.6, seed=s),
+    return [dict(gens="collapse,hole,star,rect", variants="base", n=50000, W=6, nmax=14, bias=0.6, seed=s),
             dict(gens="collapse", variants="base", n=30000, W=8, nmax=12, bias=0.6, seed=s + 1),
             dict(gens="hole,collapse", variants="base", n=20000, W=5, nmax=16, bias=0.8, seed=s + 2)]
 
@@ -18,7 +18,7 @@ def plans(tier):
 def run(tier):
     def post(v, drv, cov):
         st = cov["record_stats"]
-        if st["atmosttwice_and_repeats"] < 50:
+        if not v.violations and st["atmosttwice_and_repeats"] < 50:   # (statistics are partial once a record has failed)
             raise vlib.Broken("vacuous: only %d (record, level) pairs are in the <=2-visit regime AND have a repeated centre" % st["atmosttwice_and_repeats"])
     return snapcheck.run_snap_property(
         PROP, tier, "SnapTrace_C18.cfg", plans(tier),
